@@ -194,7 +194,8 @@ def rule_decode_eval(P):
     f = P.fn("evhttp_decode_uri_internal")
     OUT = MEM0 + 5000
     alpha = b"a%4z+?"
-    inputs = [bytes(x) for n in range(0, 4) for x in itertools.product(alpha, repeat=n)] + [b"%41%", b"a%4", b"%4%41", b"+%2b?+", b"%41%42", b"?+%20+", b"%e9%C9", b"%%41", b"%4z%41", b"a?b+c", b"%41a"]
+    inputs = [bytes(x) for n in range(0, 4) for x in itertools.product(alpha, repeat=n)] + [b"%41%", b"a%4", b"%4%41", b"+%2b?+", b"%41%42", b"?+%20+", b"%e9%C9", b"%%41", b"%4z%41", b"a?b+c", b"%41a",
+              b"%3F+", b"%3f+a+", b"a%3F+?+", b"%3F%2B+", b"+%3F+"]      # an ESCAPED question mark is data: it does not start the query part
     HEXD = b"0123456789abcdefABCDEF"
     pairs = [b"%" + bytes([x, y]) + b"." for x in HEXD for y in HEXD]          # every pair of hexadecimal digits, in either case
     nb = 0
